@@ -398,4 +398,62 @@ theorem C10_unsolicited_ok {l : LState} {g : Ghost} (h : B1 l g) (op : LOp) (o :
   | drop => simp only [unsolicitedAck]; cases (sstepObs s .drop).outcome <;> simp
   | inflight => simp only [unsolicitedAck]; cases (sstepObs s .inflight).outcome <;> simp
 
+/-- C02: a PUBREC that accepts a publish of this connection (MQTT 3.1.1: any; MQTT 5: reason Success or
+    No matching subscribers) is answered by PUBREL -/
+theorem C02_relAnswered_ok {l : LState} {g : Ghost} (h : B1 l g) (op : LOp) (o : Obs) (ho : (lstep l op).2 = some o) :
+    C02.relAnswered g o (g.step o) = true := by
+  obtain ⟨sop, hl, rfl⟩ := lstep_obs ho
+  obtain ⟨s, pd⟩ := l
+  have hU := h.g1.unacked
+  have hver := h.g0.ver
+  have hsv := h.inv0.sinv
+  simp only at hU hver hsv
+  unfold C02.relAnswered
+  simp only [Bool.or_eq_true]
+  right
+  rw [sstepObs_op]
+  cases sop with
+  | inc p =>
+    cases p with
+    | pubrec i r =>
+      have hout : (sstepObs s (.inc (.pubrec i r))).outcome = (handlePubrec (s.pushEv (.incoming (.pubrec i r))) i r).2 := rfl
+      rw [hout]
+      by_cases hc : ((alookup g.unacked i).isSome && pubrecAccepts g.ver r) = true
+      · simp only [hc, if_true]
+        simp only [Bool.and_eq_true] at hc
+        obtain ⟨hlook, hacc⟩ := hc
+        have hs0 := hsv.pushEv (.incoming (.pubrec i r))
+        have he := handlePubrec_eff hs0 i r
+        have hslot : ∃ x, (s.pushEv (.incoming (.pubrec i r))).outgoingPub[i]? = some (some x) := by
+          have := hU.look i
+          unfold slotTag at this
+          cases hsl : s.outgoingPub[i]? with
+          | none => rw [hsl] at this; rw [this] at hlook; simp at hlook
+          | some v =>
+            cases v with
+            | none => rw [hsl] at this; rw [this] at hlook; simp at hlook
+            | some x => exact ⟨x, hsl⟩
+        obtain ⟨x, hx⟩ := hslot
+        generalize handlePubrec (s.pushEv (.incoming (.pubrec i r))) i r = res at he ⊢
+        cases he with
+        | unsol s' h1 _ => rcases h1 with h1 | h1 <;> rw [h1] at hx <;> simp at hx
+        | failed x' _ h1 hv _ =>
+          exfalso
+          have hv5 : s.ver = .v5 := hv.1
+          have hno : ackOk r = false := hv.2
+          unfold pubrecAccepts at hacc
+          unfold ackOk at hno
+          rw [hver, hv5] at hacc
+          simp only [reduceCtorEq, decide_false, Bool.false_or] at hacc
+          rw [hno] at hacc; cases hacc
+        | moved s' x' h1 hv hi hc' => simp
+      · have : ((alookup g.unacked i).isSome && pubrecAccepts g.ver r) = false := by simpa using hc
+        simp only [this, Bool.false_eq_true, if_false]
+        cases (handlePubrec (s.pushEv (.incoming (.pubrec i r))) i r).2 <;> rfl
+    | _ => cases (sstepObs s (.inc _)).outcome <;> rfl
+  | out r => cases (sstepObs s (.out r)).outcome <;> rfl
+  | clean => cases (sstepObs s .clean).outcome <;> rfl
+  | drop => cases (sstepObs s .drop).outcome <;> rfl
+  | inflight => cases (sstepObs s .inflight).outcome <;> rfl
+
 end Client
